@@ -43,11 +43,17 @@ Proof.
   - rewrite IH. ring.
 Qed.
 
-(** FITTERS[polynomial] (as generated from the source) is sum_i c_i x^(d-i) *)
+Lemma fold_left_ext2 : forall (f g : R -> R -> R) l a,
+  (forall u v, f u v = g u v) -> fold_left f l a = fold_left g l a.
+Proof. induction l as [|b l IH]; intros a H; simpl; [reflexivity|]. rewrite H. apply IH. assumption. Qed.
+
+(** FITTERS[polynomial] (as generated from the source) is sum_i c_i x^(d-i);
+    the step function is only required to be extensionally a * x + b *)
 Lemma fit_poly_peval : forall x cs, FitR.fit_poly x cs = peval cs x.
 Proof.
   intros x [|c cs]; unfold FitR.fit_poly, fold_left1; simpl; [reflexivity|].
-  rewrite horner_fold. reflexivity.
+  transitivity (fold_left (fun a b => a * x + b) cs c); [apply fold_left_ext2; intros; ring|].
+  apply horner_fold.
 Qed.
 
 Lemma fit_lin_peval : forall x a b, FitR.fit_lin x a b = peval [a; b] x.
